@@ -471,6 +471,12 @@ def FWorld.dispatch (w : FWorld) (j p : Nat) (m : Option Int) : FWorld × Bool :
     | none => ({ w with s := s' }, true)
     | some x => (w.subs.foldl (fun w id => w.callUpdate x id) { w with s := s' }, true)
 
+/-- `Dispatcher.unsubscribe(observer)`: the observer leaves the subscriber list (`list.remove`; the caller gets a `ValueError` when
+it is not subscribed, modelled by the `Bool`); the object itself stays in the heap, no longer notified and no longer found by the
+`create_or_get_observer`-style lookups, which scan the subscribers -/
+def FWorld.unsubscribe (w : FWorld) (id : Nat) : FWorld × Bool :=
+  if w.subs.contains id then ({ w with subs := w.subs.erase id }, true) else (w, false)
+
 /-- `Dispatcher.reset` on the feature world -/
 def FWorld.reset (w : FWorld) : FWorld :=
   w.subs.foldl (fun w id => w.callReset id) { w with s := JS.init w.cfg.I }
